@@ -234,5 +234,6 @@ stack_caps = Fn(name='vx_stack_caps', header=r'struct parse_table_cursor_stack_t
 UNIT.fns.append(stack_caps)
 UNIT.enums = PC.ENUMS
 UNIT.facts = FACTS
+UNIT.typedefs = PC.RT_TYPEDEFS
 from vx.core import apply_spec
 apply_spec(UNIT.fns, os.path.join(os.path.dirname(os.path.abspath(__file__)), '..', 'contracts', 'driver.spec'))
